@@ -246,6 +246,7 @@ func main() {
 			law("L1 $nor = not $or", doc, norq, rnor, neg(ro), nil)
 		}
 	}
+	schemaCases(g, n/4, counts)
 	trace.Close()
 	util.WriteJSON(filepath.Join(dir, "strings.json"), table.JSON())
 	out.Encode(map[string]interface{}{"kind": "summary", "cases": trace.N, "base": n, "results": counts, "law_checks": lawChecks, "law_violations": lawViolations, "panics": panics})
